@@ -22,22 +22,27 @@ CONFIGS = {
 
 
 def matrix_configs():
-    """thorough tier: tonic under every subset of {gzip,deflate,zstd} x {no tls, tls-ring} x 3 role sets"""
+    """thorough tier: tonic alone under (a) every subset of {gzip,deflate,zstd} with default features and
+    (b) {no tls, tls-ring} x {default, server-only, channel-only} with all three compressions"""
     out = {}
     comps = ['gzip', 'deflate', 'zstd']
     for mask in range(8):
         cs = [c for i, c in enumerate(comps) if mask >> i & 1]
-        for tls in (False, True):
-            for role, base in (('default', None), ('server', 'server,codegen,prost'), ('channel', 'channel,codegen,prost')):
-                feats = list(cs) + (['tls-ring'] if tls else [])
-                name = 'm_%s_%s_%s' % ('+'.join(cs) or 'none', 'tls' if tls else 'notls', role)
-                args = ['-p', 'tonic']
-                if base is not None:
-                    args += ['--no-default-features']
-                    feats = base.split(',') + feats
-                if feats:
-                    args += ['--features', ','.join(feats)]
-                out[name] = {'args': args, 'only': 'tonic', 'comps': cs, 'tls': tls, 'role': role}
+        name = 'm_comp_%s' % ('+'.join(cs) or 'none')
+        args = ['-p', 'tonic']
+        if cs:
+            args += ['--features', ','.join(cs)]
+        out[name] = {'args': args, 'only': 'tonic', 'comps': cs, 'tls': False, 'role': 'default'}
+    for tls in (False, True):
+        for role, base in (('default', None), ('server', 'server,codegen,prost'), ('channel', 'channel,codegen,prost')):
+            feats = list(comps) + (['tls-ring'] if tls else [])
+            name = 'm_role_%s_%s' % (role, 'tls' if tls else 'notls')
+            args = ['-p', 'tonic']
+            if base is not None:
+                args += ['--no-default-features']
+                feats = base.split(',') + feats
+            args += ['--features', ','.join(feats)]
+            out[name] = {'args': args, 'only': 'tonic', 'comps': comps, 'tls': tls, 'role': role}
     return out
 
 
